@@ -24,6 +24,7 @@ type Program struct {
 	RepoDir  string
 	AllFuncs map[*ssa.Function]bool // ssautil.AllFunctions
 	Config   string                 // description of the build configuration
+	startup  map[*ssa.Global]*startupEntry
 }
 
 type LoadOptions struct {
